@@ -14,6 +14,7 @@ type Clause struct {
 	Uses    []string
 	HasUses bool
 	CallSiteOnly bool // demands: checked at call sites (and then assumed there), NOT assumed when verifying the body
+	Assumed bool // ensures {assumed}: given to callers, NOT checked against the body (listed as an assumption)
 	Props   []string
 	Reading Reading
 	Label   string
@@ -294,6 +295,8 @@ func parseClause(kind, s string) (*Clause, error) {
 			// {uses a b c}: this loop invariant is preserved using only the named invariants of the same loop
 			cl.Uses = strings.Fields(strings.ReplaceAll(opt[4:], ",", " "))
 			cl.HasUses = true
+		} else if opt == "assumed" {
+			cl.Assumed = true
 		} else {
 			cl.Reading = Reading(opt)
 		}
